@@ -31,7 +31,7 @@ def run_group(ck, pid, init, want, cover):
                              "EmitForms == TRUE\n====\n" % (mod, init, tla_sets))
     mixed = init.startswith("InitMixed")
     cfg = write_cfg(os.path.join(ck.tmp, mod + ".cfg"),
-                    constants={"Forms": "<- FormDefs", "PageXO": "<- PageXODef", "DevChoices": "<- TheDevs", "MixTokens": 60 if mixed else 0,
+                    constants={"Forms": "<- FormDefs", "PageXO": "<- PageXODef", "PageFonts": "<- PageFontsDef", "DevChoices": "<- TheDevs", "MixTokens": 60 if mixed else 0,
                                "MixPool": "<- MixPoolAll" if mixed else "<- NoPool"},
                     init="TheInit", next="Next", invariants=["DevCtmInSync", "NoError"],
                     properties=["NoResidue", "QRestores", "FormTransparent", "BadOperandsFrame", "FrameOK"], constraints=["EmitTerminal"])
@@ -67,7 +67,7 @@ def run_group(ck, pid, init, want, cover):
         chunk = keys[i:i + CH]
         progs = [byprog[k][""]["prog"] for k in chunk]
         style = lambda j, i=i: (i // CH + j) % IR.NUMSTYLES  # noqa: E731 - rotate the spelling of numbers over the programs
-        data = IR.build_doc(progs, forms, numstyle=style)
+        data = IR.build_doc(progs, forms, numstyle=style, direct_fonts=(i // CH) % 2 == 1)
         results = IR.run_doc(data, len(progs))
         for k, prog, (glyphs, shapes, snaps, err) in zip(chunk, progs, results):
             recs = byprog[k]
@@ -203,10 +203,10 @@ def _forms():
     fm3 = [Op("BT"), Nm("F1"), N(10), Op("Tf"), S(b"B"), Op("Tj"), Op("ET"), Nm("Fm1"), Op("Do"), Nm("Fm3"), Op("Do"), Nm("Fm2"), Op("Do"),
            Op("BT"), Nm("F1"), N(10), Op("Tf"), S(b"A"), Op("Tj"), Op("ET")]
     fm4 = [N(1), N(0), N(0), Op("rg"), Op("BT"), Nm("F1"), N(10), Op("Tf"), S(b"AB"), Op("Tj"), Op("ET")]
-    return {"Fm1": {"m": [2, 0, 0, 2, 10, 10], "body": fm1, "own": True, "xo": {}},
-            "Fm2": {"m": [1, 0, 0, 1, 0, 0], "body": fm2, "own": False, "xo": {}},
-            "Fm3": {"m": [1, 0, 0, 1, 5, 0], "body": fm3, "own": True, "xo": {"Fm1": "Fm4", "Fm3": "Fm4"}},
-            "Fm4": {"m": [1, 0, 0, 1, 0, 7], "body": fm4, "own": False, "xo": {}, "page": False}}
+    return {"Fm1": {"m": [2, 0, 0, 2, 10, 10], "body": fm1, "own": True, "xo": {}, "fo": {"F1": "F1"}},
+            "Fm2": {"m": [1, 0, 0, 1, 0, 0], "body": fm2, "own": False, "xo": {}, "fo": {}},
+            "Fm3": {"m": [1, 0, 0, 1, 5, 0], "body": fm3, "own": True, "xo": {"Fm1": "Fm4", "Fm3": "Fm4"}, "fo": {"F1": "F1b"}},
+            "Fm4": {"m": [1, 0, 0, 1, 0, 7], "body": fm4, "own": False, "xo": {}, "fo": {}, "page": False}}
 
 
 FORMS = _forms()
@@ -252,7 +252,8 @@ def check_forms_transcription():
             raise MachineryError("harness copy of form %s matrix differs" % name)
         own = re.search(r"own \|-> (TRUE|FALSE)", seg).group(1) == "TRUE"
         xo = dict(re.findall(r'(\w+) \|-> "(\w+)"', re.search(r"xo \|-> (<<>>|\[[^\]]*\])", seg).group(1)))
-        if own != f["own"] or xo != f["xo"]:
+        fo = dict(re.findall(r'(\w+) \|-> "(\w+)"', re.search(r"fo \|-> (<<>>|\[[^\]]*\])", seg).group(1)))
+        if own != f["own"] or xo != f["xo"] or fo != f["fo"]:
             raise MachineryError("harness copy of form %s resources differ" % name)
     pm = dict(re.findall(r'(\w+) \|-> "(\w+)"', re.search(r"PageXODef == \[(.*?)\]", src).group(1)))
     if pm != {k: k for k, f in FORMS.items() if f.get("page", True)}:
